@@ -43,13 +43,15 @@ func (wl *WhopLoc) Eval(s *Scope, depth int) Object {
 }
 
 func (wl *WhopLoc) Continue(s *Scope, args List, depth int) Object {
-	for wl.Current++; wl.Current < len(wl.Method.Combinations); wl.Current++ {
-		wrap := wl.Method.Combinations[wl.Current].Wrap
+	// Current is the index of the combination whose wrapper is running. It
+	// is not advanced so that a wrapper can continue more than once.
+	for i := wl.Current + 1; i < len(wl.Method.Combinations); i++ {
+		wrap := wl.Method.Combinations[i].Wrap
 		if wrap == nil {
 			continue
 		}
 		ws := s.NewScope()
-		ws.Let("~whopper-location~", &WhopLoc{Method: wl.Method, Current: wl.Current + 1})
+		ws.Let("~whopper-location~", &WhopLoc{Method: wl.Method, Current: i})
 		if lam, ok := wrap.(*Lambda); ok {
 			lam.Closure = ws
 		}
